@@ -22,6 +22,9 @@ macro_rules! registry {
             "C33" => dispatch!($action, props::c33::C33, $ctx, $path),
             "C37" => dispatch!($action, props::c37::C37, $ctx, $path),
             "C40" => dispatch!($action, props::c40::C40, $ctx, $path),
+            "C13" => dispatch!($action, props::c13::C13, $ctx, $path),
+            "C19" => dispatch!($action, props::c19::C19, $ctx, $path),
+            "C20" => dispatch!($action, props::c20::C20, $ctx, $path),
             _ => {
                 eprintln!("unknown property {}", $id);
                 2
